@@ -130,8 +130,9 @@ pub fn units(tier: Tier, _seed: u64) -> Vec<Unit> {
     // guard a change adds becomes a branch that is explored on both sides
     let first = u.len();
     for &(n, k) in &[(130usize, 134usize), (200, 204), (3, 262), (5, 263)] {
-        for m in [Ma::Sma, Ma::Alma] {
+        for m in [Ma::Sma, Ma::Alma, Ma::Ema] {
             if matches!(m, Ma::Alma) && n > 100 { continue; }
+            if matches!(m, Ma::Ema) && std::env::var("VERIF_EMA_LONG").is_err() { continue; }
             u.push(unit!(format!("C04/hull/{m:?}/N={n}/k={k}"), hull(m, n, k)));
             u.push(unit!(format!("C04/constant/{m:?}/N={n}/k={k}"), constant(m, n, k)));
         }
